@@ -113,4 +113,17 @@ func TestVerifRace(t *testing.T) {
 			tr.op("round", ss("95", i64(int64(round)), i64(int64(kind))), ss("1"))
 		}
 	}
+	// a maintenance tick that finds the policy lock busy, followed at once by Close: whatever the ticker goroutine reads
+	// on its way (closed flags, the wheel) must be ordered with Close's writes
+	for i := 0; i < vscale(2, 6); i++ {
+		s := NewStore(&StoreOptions[int, int]{MaxSize: 50})
+		s.Set(1, 1, 1, time.Second)
+		s.Wait()
+		s.policyMu.Lock()
+		time.Sleep(time.Duration(1100+100*(i%3)) * time.Millisecond) // one wake-up of the ticker falls into this
+		s.policyMu.Unlock()
+		s.Close()
+		time.Sleep(20 * time.Millisecond)
+		tr.op("busytick-close", ss("94", i64(int64(i))), ss("1"))
+	}
 }
